@@ -12,6 +12,7 @@ import AvoVerif.Props.C02
 #print axioms Avo.Determinism.mostRestricted_perm
 #print axioms Avo.Determinism.mapIterTypes_known
 #print axioms Avo.Determinism.mapIterTypes_nonempty
+#print axioms Avo.Determinism.mapIterShapes_known
 #print axioms Avo.Determinism.only_pass_and_reg_enumerate_maps
 #print axioms Avo.Live.liveness_order_irrelevant
 #print axioms Avo.Determinism.allocLoop_perm
